@@ -2113,6 +2113,8 @@ class Engine:
         for pname in getattr(contract.impl, "mutates", None) or []:
             from . import ext_reader
 
+            if pname in contract.params:
+                ext_reader.coerce_collection(ctx, nsd[pname], contract.params[pname])
             ns.__dict__["old_" + pname] = ext_reader.snapshot_collection(nsd[pname])
         callee = short(contract.qualname)
         for label, c in self.run_spec(ctx, lambda: contract.clauses("pre", ns)):
